@@ -38,6 +38,16 @@ func (r *abort1) StoreBroadcastMessage(msg round.Message) error {
 		return round.ErrInvalidContent
 	}
 
+	// the message must carry a proof for k and one delta proof for every other party, nothing else
+	if body.GammaShare == nil || body.KProof == nil || body.KProof.Plaintext == nil || len(body.DeltaProofs) != r.N()-1 {
+		return round.ErrNilFields
+	}
+	for id, deltaProof := range body.DeltaProofs {
+		if id == from || !r.PartyIDs().Contains(id) || deltaProof == nil || deltaProof.Plaintext == nil {
+			return round.ErrNilFields
+		}
+	}
+
 	alphas := make(map[party.ID]*saferith.Int, len(body.DeltaProofs))
 	for id, deltaProof := range body.DeltaProofs {
 		alphas[id] = deltaProof.Plaintext
@@ -137,7 +147,13 @@ func proveNth(hash *hash.Hash, paillierSecret *paillier.SecretKey, c *paillier.C
 }
 
 func (msg *abortNth) Verify(hash *hash.Hash, paillierPublic *paillier.PublicKey, c *paillier.Ciphertext) bool {
-	if msg == nil || !arith.IsValidNatModN(paillierPublic.ModulusSquared().Modulus, msg.Nonce) || msg.Plaintext == nil {
+	if msg == nil || c == nil || !arith.IsValidNatModN(paillierPublic.ModulusSquared().Modulus, msg.Nonce) || msg.Plaintext == nil {
+		return false
+	}
+	// a plaintext outside ±(N-1)/2 cannot be encrypted (EncWithNonce panics on it)
+	nHalf := new(saferith.Nat).SetNat(paillierPublic.N().Nat())
+	nHalf.Rsh(nHalf, 1, -1)
+	if gt, _, _ := msg.Plaintext.Abs().Cmp(nHalf); gt == 1 {
 		return false
 	}
 	one := new(saferith.Nat).SetUint64(1)
